@@ -500,11 +500,11 @@ DocMuts ==
       DocAct("structure", "two-types-blocks", <<Dup(ty)>>),
       DocAct("structure", "types-retagged", <<Retag(ty, "Types")>>),
       DocAct("structure", "composites-nested-10000-deep", <<Nest(ty, "composite", 10000, <<FragEl("composite", 0, <<A("name", "deep")>>, "")>>)>>),
-      DocAct("structure", "composites-nested-200-deep", <<Nest(ty, "composite", 200, <<FragEl("composite", 0, <<A("name", "deep")>>, "")>>)>>),
+      DocAct("structure", "composites-nested-100-deep", <<Nest(ty, "composite", 100, <<FragEl("composite", 0, <<A("name", "deep")>>, "")>>)>>),
       DocAct("structure", "unknown-elements-nested-10000-deep", <<Nest(ty, "zzz", 10000, NoFrag)>>)>>)) \o
   Flat(MapL(Take(Messages, 1), LAMBDA m :
     <<DocAct("structure", "groups-nested-10000-deep", <<Nest(m, "group", 10000, <<FragEl("group", 0, <<A("name", "deep"), A("id", "1")>>, "")>>)>>),
-      DocAct("structure", "groups-nested-200-deep", <<Nest(m, "group", 200, <<FragEl("group", 0, <<A("name", "deep"), A("id", "1")>>, "")>>)>>),
+      DocAct("structure", "groups-nested-100-deep", <<Nest(m, "group", 100, <<FragEl("group", 0, <<A("name", "deep"), A("id", "1")>>, "")>>)>>),
       DocAct("structure", "message-retagged", <<Retag(m, "sbe:Message")>>),
       DocAct("structure", "message-duplicated", <<Dup(m)>>)>>))
 
@@ -514,10 +514,7 @@ DocMuts ==
 (* not exist, @dir a directory, @unreadable a file with mode 000, @outfile  *)
 (* an existing regular file, @outro a directory with mode 555, @long a      *)
 (* 5000-character name; "@none" = no arguments at all).  env: "nobody" = the *)
-(* fixture only bites for an unprivileged user (the run is made as one);    *)
-(* "obstructed" = the action makes the OUTPUT location unusable while the   *)
-(* input stays the valid base: calls of the base's emission plan may fail,  *)
-(* and a failed call obliges the run to end with status # 0 + diagnostic.   *)
+(* fixture only bites for an unprivileged user (the run is made as one).    *)
 ArgAct(variant, lex, argv, env) == Act("argv", "Argv", variant, lex, <<>>, NoFile, argv, env)
 Std == <<"--output-dir", "@out">>
 OptNames == <<"--schema-name", "--output-dir", "--inject-include">>
@@ -565,16 +562,16 @@ ArgvMuts ==
     ArgAct("files", "dev-zero", Std \o <<"/dev/zero">>, ""),
     ArgAct("files", "non-ascii-name", Std \o <<"\\u00e9\\xff.xml">>, ""),
     ArgAct("files", "second-valid-schema", Std \o <<"@second">>, ""),
-    ArgAct("output-dir", "existing-file", <<"--output-dir", "@outfile", "@main">>, "obstructed"),
-    ArgAct("output-dir", "below-a-file", <<"--output-dir", "@outfile/sub", "@main">>, "obstructed"),
-    ArgAct("output-dir", "unwritable", <<"--output-dir", "@outro/sub", "@main">>, "nobody-obstructed"),
-    ArgAct("output-dir", "unwritable-itself", <<"--output-dir", "@outro", "@main">>, "nobody-obstructed"),
-    ArgAct("output-dir", "empty", <<"--output-dir", "", "@main">>, "obstructed"),
-    ArgAct("output-dir", "5000-chars", <<"--output-dir", "@out/" \o Long5000, "@main">>, "obstructed"),
-    ArgAct("output-dir", "dev-null", <<"--output-dir", "/dev/null", "@main">>, "obstructed"),
-    ArgAct("output-dir", "proc", <<"--output-dir", "/proc/c09_nosuch/x", "@main">>, "obstructed"),
+    ArgAct("output-dir", "existing-file", <<"--output-dir", "@outfile", "@main">>, ""),
+    ArgAct("output-dir", "below-a-file", <<"--output-dir", "@outfile/sub", "@main">>, ""),
+    ArgAct("output-dir", "unwritable", <<"--output-dir", "@outro/sub", "@main">>, "nobody"),
+    ArgAct("output-dir", "unwritable-itself", <<"--output-dir", "@outro", "@main">>, "nobody"),
+    ArgAct("output-dir", "empty", <<"--output-dir", "", "@main">>, ""),
+    ArgAct("output-dir", "5000-chars", <<"--output-dir", "@out/" \o Long5000, "@main">>, ""),
+    ArgAct("output-dir", "dev-null", <<"--output-dir", "/dev/null", "@main">>, ""),
+    ArgAct("output-dir", "proc", <<"--output-dir", "/proc/c09_nosuch/x", "@main">>, ""),
     ArgAct("output-dir", "given-twice", <<"--output-dir", "@outfile", "--output-dir", "@out", "@main">>, ""),
-    ArgAct("output-dir", "non-ascii", <<"--output-dir", "@out/\\u00e9\\xff", "@main">>, "obstructed"),
+    ArgAct("output-dir", "non-ascii", <<"--output-dir", "@out/\\u00e9\\xff", "@main">>, ""),
     ArgAct("output-dir", "default-cwd", <<"@main">>, "")>> \o
   MapL(OptNames, LAMBDA o : ArgAct("missing-value", o \o "/alone", <<o>>, "")) \o
   MapL(OptNames, LAMBDA o : ArgAct("missing-value", o \o "/last", Std \o <<"@main", o>>, "")) \o
@@ -653,7 +650,7 @@ ActionOK(a) ==
   /\ a.pos # "" /\ a.lex # ""
   /\ \A k \in 1 .. Len(a.edits) : EditOK(a.edits[k])
   /\ Len(a.edits) + Len(a.files) + Len(a.argv) >= 1
-  /\ a.env \in {"", "nobody", "obstructed", "nobody-obstructed"}
+  /\ a.env \in {"", "nobody"}
   /\ \A k \in 1 .. Len(a.files) : a.files[k].kind \in {"frag", "garbage", "empty", "copy-of-main", "chain"}
 DepthOK == Len(picked) <= MaxDepth /\ MaxDepth <= 2
 CaseWellFormed == \A k \in 1 .. Len(picked) : picked[k] \in 1 .. Len(tab) /\ ActionOK(tab[picked[k]])
